@@ -16,6 +16,7 @@ from spec_classes.utils.mutation import (
     mutate_attr,
     prepare_attr_value,
     protect_via_deepcopy,
+    unfrozen,
 )
 
 from .base import MethodDescriptor
@@ -539,7 +540,10 @@ class DeepCopyMethod(MethodDescriptor):
                 new.__dict__[attr] = protect_via_deepcopy(value, memo)
         __post_copy__ = getattr(new, "__post_copy__", None)
         if __post_copy__:
-            __post_copy__()
+            # Like `__post_init__`, the hook may assign attributes of the
+            # (possibly frozen) copy, which nobody else has seen yet.
+            with unfrozen(new):
+                __post_copy__()
         return new
 
     def build_method(self) -> Callable:
